@@ -92,6 +92,7 @@ def cases(tier):
     for lv, bf in itertools.product((1, 2, 3), (1, 2, 3)):
         yield dict(kind="genseq", levels=lv, bfact=bf, tier=tier)
     yield dict(kind="badletters", tier=tier)
+    yield dict(kind="genseqfile", tier=tier)
 
 
 def check_nuc(case):
@@ -294,6 +295,80 @@ def check_genseq(case):
     return viols, evals, keys
 
 
+FILE_ITP = """[ moleculetype ]
+M 1
+[ atoms ]
+1 X1 1 MA x1 1 0.1 10.0
+2 X2 1 MA x2 2 0.2 11.0
+3 Y1 2 MB y1 3 -0.3 12.0
+[ bonds ]
+1 2 1 0.21 2100
+2 3 1 0.22 2200
+[ moleculetype ]
+TRI 1
+[ atoms ]
+1 Q1 1 QA q 1 0.0 10.0
+2 Q1 2 QB q 2 0.0 10.0
+3 Q1 3 QA q 3 0.0 10.0
+4 Q1 4 QC q 4 0.0 10.0
+[ bonds ]
+1 2 1 0.2 100
+2 3 1 0.2 100
+2 4 1 0.2 100
+"""
+FILE_MACROS = {"M": (["MA", "MB"], [(0, 1)]), "TRI": (["QA", "QB", "QA", "QC"], [(0, 1), (1, 2), (1, 3)])}
+
+
+def check_genseq_file(case):
+    """macros taken from molecule definitions in an input file (-from_file), mixed with string macros"""
+    from polyply.src.gen_seq import gen_seq
+    from polyply.src.meta_molecule import MetaMolecule
+    viols, evals, keys = [], 0, []
+    strings = {"X": (2, 1, "PEO")}
+    with H.tempdir() as d:
+        (d / "in.itp").write_text(FILE_ITP)
+        for k in (1, 2, 3):
+            for seq in itertools.product(["F1", "F2", "X"], repeat=k):
+                if "F1" not in seq and "F2" not in seq:
+                    continue
+                info = {"F1": FILE_MACROS["M"], "F2": FILE_MACROS["TRI"], "X": (["PEO", "PEO"], [(0, 1)])}
+                sizes = [len(info[m][0]) for m in seq]
+                conn_opts = [[]]
+                if k >= 2:
+                    conn_opts += [[f"{i}:{i + 1}:{sizes[i] - 1}-0"] for i in range(k - 1)]
+                    conn_opts.append([f"0:1:0-{sizes[1] - 1},{sizes[0] - 1}-0"])
+                for connects in conn_opts:
+                    evals += 1
+                    case1 = dict(kind="genseqfile1", seq=list(seq), connects=connects)
+                    out = d / "seq.json"
+                    try:
+                        gen_seq(name="m", outpath=out, seq=list(seq), inpath=[d / "in.itp"], from_file=["F1:M", "F2:TRI"],
+                                macro_strings=["X:2:1:PEO-1.0"], connects=connects)
+                        mm = MetaMolecule.from_sequence_file(None, out, "mol")
+                    except Exception as exc:  # noqa
+                        viols.append(crash_violation(exc, case1, assertion="gen_seq-output-readable"))
+                        continue
+                    names, edges, off = [], set(), []
+                    for m in seq:
+                        off.append(len(names))
+                        names += info[m][0]
+                        edges |= {frozenset((off[-1] + a, off[-1] + b)) for a, b in info[m][1]}
+                    for rec in connects:
+                        i, j, abs_ = rec.split(":")
+                        for ab in abs_.split(","):
+                            a, b = ab.split("-")
+                            edges.add(frozenset((off[int(i)] + int(a), off[int(j)] + int(b))))
+                    got_nodes = [(kk, mm.nodes[kk].get("resname"), mm.nodes[kk].get("resid")) for kk in mm.nodes]
+                    want_nodes = [(i, names[i], i + 1) for i in range(len(names))]
+                    got_edges = {frozenset(e) for e in mm.edges}
+                    if (got_nodes != want_nodes or got_edges != edges) and len(viols) < 20:
+                        viols.append(dict(assertion="gen_seq-graph-as-specified", tags=["from_file"],
+                                          message=f"seq {seq} connects {connects}: nodes {got_nodes} expected {want_nodes}; edges {sorted(map(sorted, got_edges))} expected {sorted(map(sorted, edges))}",
+                                          case=case1, detail={}))
+                    keys.append(json.dumps(["file", seq, connects]))
+    return viols, evals, keys
+
+
 def check_badletters(case):
     viols, evals = [], 0
     with H.tempdir() as d:
@@ -322,7 +397,7 @@ def run_case(case):
                              case.get("circ", False))
         v = [] if graph_view(mm) == want else [dict(assertion="residue-graph-as-specified", tags=[], message=f"{graph_view(mm)} != {want}", case=case, detail={})]
         return dict(evals=1, keys=[], violations=v, stats={})
-    fn = {"nuc": check_nuc, "prot": check_prot, "txt": check_txt, "seqopt": check_seqopt, "genseq": check_genseq,
+    fn = {"nuc": check_nuc, "prot": check_prot, "txt": check_txt, "seqopt": check_seqopt, "genseq": check_genseq, "genseqfile": check_genseq_file,
           "badletters": check_badletters}.get(kind)
     if fn is None:
         return dict(evals=0, keys=[], violations=[], stats={})
